@@ -164,6 +164,10 @@ func runPipeTrace(t *Trace, want string, clk *taskClock) (res *Result) {
 		ob := dx.writeBlock(cloneBlock(&blk), -1, "", false)
 		res.Obs = append(res.Obs, fmt.Sprintf("Parse f=%d n=%d %s | %s", flags, n, seqString(&blk), ob))
 		res.ObsTicks = append(res.ObsTicks, clk.ticks)
+		// the block is the caller's; it is reused for the next Parse
+		for j := range blk.Literals {
+			blk.Literals[j] ^= 0x5a
+		}
 		dx.invariants()
 		if dx.refused {
 			// the decoder no longer holds the stream
